@@ -218,11 +218,12 @@ def parse_table(P, rep):
 
 def parse_table_for(P, rep, want):
     """-> {(directive, cond True/False/None): (mode | 'Err', evaluates_condition)}"""
+    parse_table_for.definedness = set()
     fn = "directive::Directive::parse"
     dv = dvariants(P)
     mv = modes(P)
     inv = {n: d for d, n in dv.items()}
-    M = absint.Machine(P, max_depth=4, opaque={"expr::Expr::run", "parser::parse_file_internal"})
+    M = absint.Machine(P, max_depth=4, opaque={"expr::Expr::run", "parser::parse_file_internal", "context::Context::exist"})
     body = P.body[fn]
     args = M.arg_unknowns(fn)
     doms = {sx.S("self*#d", 64, True): sx.dom_set(inv[w] for w in want)}
@@ -245,10 +246,13 @@ def parse_table_for(P, rep, want):
                 cond = not t
                 evaluated = True
         for s, dd in st.doms.items():
-            if isinstance(s, tuple) and s[0] == 's' and s[1].startswith("contains_key(") and sx.dom_size(dd) == 1:
+            # whether the name is defined: asked of the flag table alone (contains_key) or of every kind of name (exist)
+            if isinstance(s, tuple) and s[0] == 's' and (s[1].startswith("contains_key(") or re.match(r"^exist\(.*\)(@\d+)?$", s[1])) and sx.dom_size(dd) == 1 \
+                    and d in ("IfDef", "IfNDef"):
                 defined = bool(sx.dom_min(dd))
                 cond = defined if d == "IfDef" else (not defined)
                 evaluated = True
+                parse_table_for.definedness.add("flags only" if s[1].startswith("contains_key(") else "every kind of name")
             if isinstance(s, tuple) and s[0] == 's' and s[1].startswith("run(") and s[1].endswith("#d"):
                 evaluated = True
         if p.exit == "Ok":
@@ -608,6 +612,10 @@ def run(tier):
     rep.ob("C08.inert", not bad_callees, "nothing effectful is reachable from the scanner (no directive handling, item push, symbol setter, message, error or panic): skipped text — even unparsable text — has no effect" if not bad_callees else
            "while skipping, the scanner can reach %s" % sorted(bad_callees))
     define_value(P, rep)
+    kinds = getattr(parse_table_for, "definedness", set())
+    rep.ob("C08.ifdef|every-kind", kinds == {"every kind of name"},
+           ".ifdef / .ifndef ask whether the name is defined as anything (flag, constant, variable, label, alias)" if kinds == {"every kind of name"} else
+           ".ifdef / .ifndef look at %s: `.equ F_CPU = 16000000 / .ifndef F_CPU / ...` takes the arm that must be skipped, `.ifdef SPH` with the shipped m8def.inc drops the stack set-up it guards" % (sorted(kinds) or "nothing recognisable"))
     import rules_C09
     rules_C09.expansion_is_deferred(P, rep, "C08.macro-body|decided-late", "a conditional in a macro body is decided against the definitions of the whole file, one at top level against those in front of it: `.ifdef FOO` in a body called before `.define FOO` holds, and a `.define DONE` made by a body is not seen by a `.ifdef DONE` behind the call")
     if miss or "EndIf" not in scan:
